@@ -448,7 +448,16 @@ def overwrite_and_gzip(repo, col):
                         ht = norm(h.node)
                         appended = appended or "+ '.gz'" in ht
                         replaced = replaced or "with_suffix('.gz')" in ht
-            if nm == "gzip.open":
+            opaque = False
+            for cc in walk_local(path_arg) if path_arg is not None else []:
+                if isinstance(cc, ast.Name) and not appended and not replaced \
+                        and cc.id not in defs and cc.id != "self":
+                    opaque = True      # a helper's parameter: built elsewhere
+            if opaque:
+                col.add(rule + ".gz-name", fn, ptxt[:60], True,
+                        "path is a helper parameter built by the caller",
+                        node=c, undecided=True)
+            elif nm == "gzip.open":
                 ok = appended and not replaced
                 col.add(rule + ".gz-name", fn, ptxt[:60], ok,
                         "gzip stream goes to <name>.gz" if ok else
@@ -725,7 +734,7 @@ def dispatch_agreement(repo, col):
 # ---------------------------------------------------------------------
 # E-SIB: pipeline composition (C19)
 # ---------------------------------------------------------------------
-STAGES = ["nibabel_image_to_info", "get_dtype_from_vol", "set_info_params",
+STAGES = ["nibabel_image_to_info", "split_rgb_channels", "set_info_params",
           "fill_scales_for_dyadic_pyramid", "get_IO_for_new_dataset",
           "nibabel_image_to_precomputed", "get_downscaler",
           "compute_dyadic_scales"]
@@ -885,18 +894,23 @@ def pipeline_composition(repo, col):
         seq_steps += [(nm, c, fn, mainfn) for nm, c in _stage_seq(fn)]
     names_all = [n for n, _ in seq_all]
     names_steps = [n for n, _, _, _ in seq_steps]
-    # the RGB split stage
-    has_rgb_steps = "get_dtype_from_vol" in names_steps
-    has_rgb_all = "get_dtype_from_vol" in names_all
-    col.add(rule + ".rgb-stage", allin, "RGB split stage present in both",
-            has_rgb_all == has_rgb_steps,
-            "" if has_rgb_all == has_rgb_steps else
-            "the step-by-step conversion splits RGB (structured dtype) volumes "
-            "into channels before writing, the all-in-one command has no such "
-            "stage: an RGB file makes it fail while the documented step "
-            "sequence has the stage")
-    a = [n for n in names_all if n != "get_dtype_from_vol"]
-    b = [n for n in names_steps if n != "get_dtype_from_vol"]
+    # the RGB split stage: present in both programs, before the chunk writer
+    def rgb_before_write(names):
+        return "split_rgb_channels" in names and \
+            "nibabel_image_to_precomputed" in names and \
+            names.index("split_rgb_channels") < \
+            names.index("nibabel_image_to_precomputed")
+    ok_rgb = rgb_before_write(names_all) and rgb_before_write(names_steps)
+    col.add(rule + ".rgb-stage", allin, "RGB split stage before the chunk "
+            "writer in both programs", ok_rgb, "" if ok_rgb else
+            "RGB (structured dtype) volumes are split into channels before "
+            "writing by %s only: the other program hands the structured image "
+            "to the chunk writer and fails" % (
+                "the step-by-step command" if rgb_before_write(names_steps)
+                else "the all-in-one command" if rgb_before_write(names_all)
+                else "neither program"))
+    a = [n for n in names_all if n != "split_rgb_channels"]
+    b = [n for n in names_steps if n != "split_rgb_channels"]
     ok = a == b
     col.add(rule + ".order", allin, " -> ".join(a), ok,
             "same stage order as the documented step sequence" if ok else
@@ -948,3 +962,35 @@ def pipeline_composition(repo, col):
             "the all-in-one command no longer threads one dataset handle "
             "through its stages", undecided=not okw)
     return len(seq_all)
+
+
+def accessor_options_plumbing(repo, col):
+    rule = "E-SIB.options"
+    fn = repo.func("accessor", "get_accessor_for_url")
+    txt = norm(fn.node)
+    for opt, dflt in (("flat", "False"), ("gzip", "True"),
+                      ("compresslevel", "9")):
+        p = "%s = accessor_options.get('%s', %s)" % (opt, opt, dflt)
+        ok = p in txt and ("%s=%s" % (opt, opt)) in txt
+        col.add(rule, fn, p, ok, "" if ok else "option %s is not passed from "
+                "accessor_options to FileAccessor with default %s"
+                % (opt, dflt), undecided=not ok and opt not in txt)
+    ini = repo.func("file_accessor", "FileAccessor.__init__")
+    t = norm(ini.node)
+    ok = "if flat: self.chunk_pattern = _CHUNK_PATTERN_FLAT else: " \
+        "self.chunk_pattern = _CHUNK_PATTERN_SUBDIR" in t.replace("\n", " ")
+    ok = "self.chunk_pattern = _CHUNK_PATTERN_FLAT" in t and \
+        "self.chunk_pattern = _CHUNK_PATTERN_SUBDIR" in t and "if flat" in t
+    col.add(rule, ini, "flat selects the flat pattern", ok, "" if ok else
+            "flat option no longer selects between the two chunk patterns",
+            undecided=not ok)
+    # CLI defaults of the shared options
+    ao = repo.func("accessor", "add_argparse_options")
+    at = norm(ao.node)
+    for p, why in (("'--no-gzip', '--no-compression', action='store_false', "
+                    "dest='gzip'", "--no-gzip does not clear the gzip option"),
+                   ("'--compresslevel', type=int, default=9",
+                    "--compresslevel default is not 9"),
+                   ("'--flat', action='store_true'", "--flat is not a flag")):
+        col.add(rule, ao, p[:50], p in at, "" if p in at else why,
+                undecided=p not in at)
